@@ -430,6 +430,111 @@ theorem hhea_num_h_metrics_is_hmtx_split (longs : List (Nat × Nat)) (lsbs : Lis
   rw [List.length_append, flatMap_const_length _ _ 4 (fun _ => rfl), flatMap_const_length _ _ 2 (fun _ => rfl)]
   simp only [List.length_map, List.length_range]
 
+
+/-! ## VORG -/
+
+theorem subsetVorg_ok (n2o : List (Nat × Nat)) (srcGlyphs nout : Nat) (t out : Bytes)
+    (h : subsetVorg n2o srcGlyphs nout t = .ok out) :
+    vorgReadable t = true ∧
+    out = t.take 6 ++ be16 ((vorgKept (oldToNew n2o) (vorgRecords t)).length % 65536) ++
+      (vorgKept (oldToNew n2o) (vorgRecords t)).flatMap enc4 := by
+  unfold subsetVorg at h
+  by_cases hr : vorgReadable t = true
+  · simp only [hr, Bool.not_true, Bool.false_eq_true, if_false] at h
+    split at h
+    · cases h
+    · simp only [Except.ok.injEq] at h
+      exact ⟨hr, h.symm⟩
+  · simp [hr] at h
+
+/-- **vorg_origin_preserved.**  `Vorg::subset` keeps the records of kept glyphs in SOURCE order with the new
+glyph index.  With the plan's strictly monotone renumbering (`PlanMono`, C17 `glyph_map_monotone_bijection`) and
+a source table sorted by glyph index (what `Vorg::vertical_origin_y`'s binary search presupposes), the emitted
+table is readable, is STILL sorted by glyph index, keeps defaultVertOriginY, and for every kept glyph
+`vertical_origin_y(subset, new) = vertical_origin_y(original, old)` — the record's value if the glyph is listed,
+the default otherwise.  `count: u16` cannot overflow (at most 65535 source records). -/
+theorem vorg_origin_preserved (n2o : List (Nat × Nat)) (srcGlyphs nout : Nat) (t out : Bytes)
+    (hb : ∀ b ∈ t, b < 256) (hmono : PlanMono n2o) (hbound : ∀ no ∈ n2o, no.1 < nout) (hn : nout ≤ 65536)
+    (hsorted : ((vorgRecords t).map (·.1)).Pairwise (· < ·))
+    (h : subsetVorg n2o srcGlyphs nout t = .ok out) :
+    vorgReadable out = true ∧
+    ((vorgRecords out).map (·.1)).Pairwise (· < ·) ∧
+    u16At out 4 = u16At t 4 ∧
+    (∀ new old, (new, old) ∈ n2o →
+      vorgOriginY out new = vorgOriginY t old ∧
+      vorgOriginY t old = some (vorgLookup (vorgRecords t) old (u16At t 4))) := by
+  obtain ⟨hr, hout⟩ := subsetVorg_ok n2o srcGlyphs nout t out h
+  have hok := planMono_ok hmono hbound
+  have hlen : 8 ≤ t.length := by
+    unfold vorgReadable at hr
+    simp only [Bool.and_eq_true, decide_eq_true_eq] at hr; exact hr.1
+  have hh : (t.take 6).length = 6 := by simp; omega
+  have hrecs : (vorgRecords t).length < 65536 := by
+    unfold vorgRecords; simp only [List.length_map, List.length_range]; exact u16At_lt t hb 6
+  have hc : (vorgKept (oldToNew n2o) (vorgRecords t)).length < 65536 :=
+    Nat.lt_of_le_of_lt (List.length_filterMap_le _ _) hrecs
+  have hv : ∀ r ∈ vorgKept (oldToNew n2o) (vorgRecords t), r.1 < 65536 ∧ r.2 < 65536 := by
+    intro r hr'
+    unfold vorgKept at hr'
+    simp only [List.mem_filterMap] at hr'
+    obtain ⟨x, hx, hx2⟩ := hr'
+    split at hx2
+    · cases hx2
+    · simp only [Option.some.injEq] at hx2
+      subst hx2
+      refine ⟨Nat.mod_lt _ (by omega), ?_⟩
+      unfold vorgRecords at hx
+      simp only [List.mem_map, List.mem_range] at hx
+      obtain ⟨k, _, rfl⟩ := hx
+      exact u16At_lt t hb _
+  obtain ⟨r1, r2, r3⟩ := vorgOut_reader (t.take 6) _ hh hc hv
+  rw [← hout] at r1 r2 r3
+  have hks := vorgKept_sorted hmono hbound hn (vorgRecords t) hsorted
+  refine ⟨r1, by rw [r2]; exact hks, by rw [r3, u16At_take _ _ _ (by omega)], ?_⟩
+  intro new old hno
+  have hg : oldToNew n2o old = some new := (oldToNew_iff hok old new).mpr hno
+  have e1 : vorgOriginY t old = some (vorgLookup (vorgRecords t) old (u16At t 4)) := by
+    unfold vorgOriginY
+    simp only [hr, Bool.not_true, Bool.false_eq_true, if_false]
+    have := vorgSearch_sorted (vorgRecords t) hsorted old (u16At t 4)
+    rw [← this]
+    cases Layout.binarySearchBy (vorgRecords t).length (fun i => Layout.natCmp ((vorgRecords t).getD i (0, 0)).1 old) <;> rfl
+  have e2 : vorgOriginY out new = some (vorgLookup (vorgRecords out) new (u16At out 4)) := by
+    unfold vorgOriginY
+    simp only [r1, Bool.not_true, Bool.false_eq_true, if_false]
+    have := vorgSearch_sorted (vorgRecords out) (by rw [r2]; exact hks) new (u16At out 4)
+    rw [← this]
+    cases Layout.binarySearchBy (vorgRecords out).length (fun i => Layout.natCmp ((vorgRecords out).getD i (0, 0)).1 new) <;> rfl
+  refine ⟨?_, e1⟩
+  rw [e2, e1, r2, r3, u16At_take _ _ _ (by omega), vorgLookup_kept hok hn new old _ hg]
+
+/-- non-vacuity: records for glyphs 1 and 3, glyphs 0 and 3 kept -/
+example : (subsetVorg [(0, 0), (1, 3)] 4 2 [0, 1, 0, 0, 3, 112, 0, 2, 0, 1, 3, 99, 0, 3, 3, 56]).toOption =
+    some [0, 1, 0, 0, 3, 112, 0, 1, 0, 1, 3, 56] ∧
+    vorgOriginY [0, 1, 0, 0, 3, 112, 0, 1, 0, 1, 3, 56] 1 = some 824 ∧
+    vorgOriginY [0, 1, 0, 0, 3, 112, 0, 2, 0, 1, 3, 99, 0, 3, 3, 56] 3 = some 824 := by decide +kernel
+
+/-! ## vmtx / vhea: passed through -/
+
+/-- **vmtx_passthrough_reads_new_id.**  At this commit klippa has no vmtx subsetter: `subset_table` copies vmtx and
+vhea byte for byte.  Reading the subset's vertical metrics at a NEW glyph id therefore answers the ORIGINAL
+table at that same numeric id — the metrics of whatever glyph had that id before, not those of the kept glyph
+(`old`), unless the plan did not renumber it.  This is the model side of known finding
+`C17-vmtx-not-subset`; the harness oracle `vmtx-vertical-metrics-preserved` shows it on the real code. -/
+theorem vmtx_passthrough_reads_new_id (t : Bytes) (numLong numGlyphs : Nat) (longs : List (Nat × Nat)) (tsbs : List Nat)
+    (h : metricsOf t numLong numGlyphs = some (longs, tsbs)) (new : Nat) :
+    passthrough t = t ∧
+    ∃ longs' tsbs', metricsOf (passthrough t) numLong numGlyphs = some (longs', tsbs') ∧
+      hmtxAdvance longs' new = hmtxAdvance longs new ∧ hmtxLsb longs' tsbs' new = hmtxLsb longs tsbs new :=
+  ⟨rfl, longs, tsbs, h, rfl, rfl⟩
+
+/-- concrete instance of the finding: 3 glyphs with advances 1000 / 1001 / 1002, glyphs 0 and 2 kept and
+renumbered 0, 1: the subset reports 1001 (old glyph 1's advance) for new glyph 1 instead of 1002 -/
+example : metricsOf (passthrough [3, 232, 0, 10, 3, 233, 0, 11, 3, 234, 0, 12]) 3 3 =
+      some ([(1000, 10), (1001, 11), (1002, 12)], []) ∧
+    hmtxAdvance [(1000, 10), (1001, 11), (1002, 12)] 1 = some 1001 ∧
+    hmtxAdvance [(1000, 10), (1001, 11), (1002, 12)] 2 = some 1002 := by decide
+
 /-- non-vacuity: a version 2.0 table with 3 glyphs (`.notdef`; custom "x"; custom "ab" = the third string, the
 second string is empty and unused) subset to glyphs 0 and 2 -/
 def exTable : Bytes :=
